@@ -265,6 +265,32 @@ static std::string run(std::vector<std::string> const &w)
 		if(!build(w,i,v) || i!=w.size()) return "bad-op";
 		return do_write(v,w[1]=="1");
 	}
+	if(w.size()>=2 && w[0]=="api") {
+		// object assembled through the API with std::string keys: v[key]=child, then every key read back
+		size_t n=strtoull(w[1].c_str(),0,10), i=2;
+		json::value v;
+		v.object(json::object());
+		std::vector<std::pair<std::string,json::value> > asg;
+		for(size_t j=0;j<n;j++) {
+			std::string key; json::value c;
+			if(i>=w.size() || !vh::unhex(w[i++],key) || !build(w,i,c)) return "bad-op";
+			v[key]=c;
+			asg.push_back(std::make_pair(key,c));
+		}
+		if(i!=w.size()) return "bad-op";
+		// the last assignment to each (byte-identical) key must be what the key reads back as
+		for(size_t j=0;j<asg.size();j++) {
+			bool later=false;
+			for(size_t k=j+1;k<asg.size();k++) if(asg[k].first==asg[j].first) later=true;
+			if(later) continue;
+			json::value const &cv=v;
+			if(cv[asg[j].first].is_undefined() || !exact_eq(cv[asg[j].first],asg[j].second))
+				return "api-alias key "+vh::hex(asg[j].first)+" reads back as "+show(cv[asg[j].first])+" in "+show(v);
+			json::object::const_iterator p=v.object().find(string_key(asg[j].first));
+			if(p==v.object().end() || p->first.str()!=asg[j].first) return "api-alias find "+vh::hex(asg[j].first)+" in "+show(v);
+		}
+		return show(v);
+	}
 	if(w.size()==2 && w[0]=="num") {
 		std::string text; if(!vh::unhex(w[1],text)) return "bad-op";
 		std::istringstream is(text);
